@@ -208,7 +208,7 @@ def run(ctx):
     # events
     for single in (1, 0):
         for n in range(4):
-            for mk in ("list", "tuple", "array"):
+            for mk in ("list", "tuple", "array", "array-f8", "array-f4-view", "range"):
                 queries.append([Sym("event"), single, [Sym("sized"), n]])
                 meta.append(("event", (single, n, mk), f"event single={single} {mk}{n}"))
         for ni in (5, None, 2.5):
@@ -244,7 +244,8 @@ def run(ctx):
                 if n == "ni":
                     vals = mk
                 else:
-                    vals = {"list": [1.0] * n, "tuple": tuple([1.0] * n), "array": np.ones(n, dtype="<f4")}[mk]
+                    vals = {"list": [1.0] * n, "tuple": tuple([1.0] * n), "array": np.ones(n, dtype="<f4"), "array-f8": np.ones(n, dtype="<f8"),
+                            "array-f4-view": np.ones(2 * n, dtype="<f4")[::2], "range": range(n)}[mk]
                 ev = Event("e", vals, EventsDataType.singleEvent if single else EventsDataType.eventSequence)
                 blk = TemporalEventsData()
                 blk.events = [ev]
@@ -261,6 +262,15 @@ def run(ctx):
         ctx.case((param, desc), nontrivial=desc.startswith(("ndarray", "coupled", "joint")), sample=dict(param=param, arg=desc, accepted=accepted) if accepted or ctx.rng.random() < 0.01 else None,
                  tags=(param.split(".")[0], "accepted" if accepted else "refused"))
         rp = dict(param=param, arg=desc)
+        # oracle: the event sentences of the property, as they stand
+        if param == "event" and accepted:
+            single, n, mk = obj
+            if n == "ni":
+                ctx.fail(f"Event accepted a non-iterable value ({desc})", rp, ident="event non-iterable accepted")
+                continue
+            if single and n > 1:
+                ctx.fail(f"a single (non-sequence) Event accepted {n} values given as {mk} ({desc})", rp, ident="single event with several values accepted")
+                continue
         # oracle: no accepted object may be mis-sized
         if accepted:
             try:
